@@ -1580,8 +1580,11 @@ func vfFamBMidsOdd(mids []string) bool {
 // vfFamBSoundAppend appends sec to the remote description, keeping it sound: a fresh mid, no
 // payload type meaning two codecs, no extmap id meaning two URIs (conflicting entries are
 // dropped from the new section). Returns false when nothing usable is left.
-func vfFamBSoundAppend(remote *vfFamBSDP, sec vfFamBSec) bool {
+func vfFamBSoundAppend(remote *vfFamBSDP, sec vfFamBSec, usedMids map[string]bool) bool {
 	mids := map[string]bool{}
+	for m := range usedMids {
+		mids[m] = true
+	}
 	ptCodec := map[int]string{}
 	idURI, uriID := map[int]string{}, map[string]int{}
 	haveApp := false
@@ -1713,6 +1716,8 @@ func vfFamBRunForeign(v *vfT, c vfFamBFCase, onDesc func(ev vfFamBFEvent)) {
 	prevRemote := ""
 	odd, addAfter := false, false
 	trackN := 0
+	usedMids := map[string]bool{} // every mid that ever appeared in a description of this session
+	dead := false                 // a Set*Description call failed: no caller continues from a half-applied exchange
 
 	remoteOffer := func(step int, st *vfFamBFStep) {
 		if pc.SignalingState() != SignalingStateStable {
@@ -1732,7 +1737,7 @@ func vfFamBRunForeign(v *vfT, c vfFamBFCase, onDesc func(ev vfFamBFEvent)) {
 				}
 			}
 			for _, sec := range st.Add {
-				if vfFamBSoundAppend(&remote, sec) {
+				if vfFamBSoundAppend(&remote, sec, usedMids) {
 					v.Label("remote:adds-section")
 				}
 			}
@@ -1740,9 +1745,13 @@ func vfFamBRunForeign(v *vfT, c vfFamBFCase, onDesc func(ev vfFamBFEvent)) {
 		started = true
 		remote.SessVer++
 		text := remote.Render()
+		for _, s := range remote.Sections {
+			usedMids[s.Mid] = true
+		}
 		if err := pc.SetRemoteDescription(SessionDescription{Type: SDPTypeOffer, SDP: text}); err != nil {
 			v.Label("set-remote-offer-error")
 			v.Logf("step %d SetRemoteDescription(offer): %v", step, err)
+			dead = true
 			return
 		}
 		var mids []string
@@ -1756,19 +1765,27 @@ func vfFamBRunForeign(v *vfT, c vfFamBFCase, onDesc func(ev vfFamBFEvent)) {
 		if err != nil {
 			v.Label("create-answer-error")
 			v.Logf("step %d CreateAnswer: %v", step, err)
+			dead = true
 			return
 		}
 		v.Label("answer-generated")
+		v.Logf("step %d remote offer  %s", step, vfFamBSummary(text))
+		v.Logf("step %d local answer  %s", step, vfFamBSummary(ans.SDP))
 		onDesc(vfFamBFEvent{Kind: "answer", Text: ans.SDP, RemoteOffer: text, PrevRemote: prevRemote, Step: step, OddMidSeen: odd, LocalAddAfter: addAfter})
 		prevRemote = text
 		if err := pc.SetLocalDescription(ans); err != nil {
 			v.Label("set-local-answer-error")
 			v.Logf("step %d SetLocalDescription(answer): %v", step, err)
+			dead = true
 		}
 	}
 
 	remoteOffer(-1, nil)
 	for i := range c.Steps {
+		if dead {
+			v.Label("history-ended-at-failed-call")
+			return
+		}
 		st := &c.Steps[i]
 		var err error
 		switch st.Op {
@@ -1786,14 +1803,20 @@ func vfFamBRunForeign(v *vfT, c vfFamBFCase, onDesc func(ev vfFamBFEvent)) {
 				continue
 			}
 			v.Label("offer-generated")
+			v.Logf("step %d local offer   %s", i, vfFamBSummary(off.SDP))
 			onDesc(vfFamBFEvent{Kind: "offer", Text: off.SDP, Step: i, OddMidSeen: odd, LocalAddAfter: addAfter})
 			if e := pc.SetLocalDescription(off); e != nil {
 				v.Label("set-local-offer-error")
+				dead = true
 				continue
 			}
 			od, e := vfFamBParse(off.SDP)
 			if e != nil {
+				dead = true
 				continue // the monitor has reported it if it matters to its property
+			}
+			for _, o := range od.Sections {
+				usedMids[o.Mid()] = true
 			}
 			// the remote answers by mirroring; sections it did not know are added to its own state
 			ans := remote
@@ -1803,11 +1826,15 @@ func vfFamBRunForeign(v *vfT, c vfFamBFCase, onDesc func(ev vfFamBFEvent)) {
 				known[s.Mid] = k
 			}
 			usable := true
+			seenMid := map[string]bool{}
 			for _, o := range od.Sections {
-				if o.Mid() == "" {
-					usable = false // cannot be answered by mid (C06's finding); stop the exchange here
+				if o.Mid() == "" || seenMid[o.Mid()] {
+					// a section without mid or two sections with one mid (C06's findings) cannot be
+					// answered by a sound remote; the history ends here
+					usable = false
 					break
 				}
+				seenMid[o.Mid()] = true
 				m := vfFamBMirrorSection(o)
 				if k, ok := known[o.Mid()]; ok && remote.Sections[k].Media == o.Media {
 					// keep the remote's own view of a section it already has, only the direction follows the offer
@@ -1821,13 +1848,15 @@ func vfFamBRunForeign(v *vfT, c vfFamBFCase, onDesc func(ev vfFamBFEvent)) {
 				ans.Sections = append(ans.Sections, m)
 			}
 			if !usable {
-				v.Label("local-offer-unanswerable(section without mid)")
-				continue
+				v.Label("local-offer-unanswerable(missing or duplicate mid)")
+				return
 			}
 			ans.SessVer++
+			v.Logf("step %d remote answer %s", i, vfFamBSummary(ans.Render()))
 			if e := pc.SetRemoteDescription(SessionDescription{Type: SDPTypeAnswer, SDP: ans.Render()}); e != nil {
 				v.Label("set-remote-answer-error")
 				v.Logf("step %d SetRemoteDescription(answer): %v", i, e)
+				dead = true
 				continue
 			}
 			v.Label("local-offer-round-ok")
@@ -2123,4 +2152,17 @@ func vfFamBGenPair(r *rapid.T, minRounds, maxRounds int, customME bool) vfFamBPC
 		}
 	}
 	return c
+}
+
+// vfFamBSummary renders the m-sections of a description on one line (diagnostics only).
+func vfFamBSummary(text string) string {
+	d, err := vfFamBParse(text)
+	if err != nil {
+		return "unparsable: " + err.Error()
+	}
+	var p []string
+	for _, s := range d.Sections {
+		p = append(p, fmt.Sprintf("%s(mid=%q port=%d %s pts=%v)", s.Media, s.Mid(), s.Port, s.Dir(), s.Formats))
+	}
+	return strings.Join(p, " ") + fmt.Sprintf(" groups=%q", d.Groups)
 }
